@@ -80,7 +80,7 @@ impl<B: Buffer> Editor<B> {
 //@     // becomes: typed text + merged continuation (+ one space iff the completion is not partial and there is room)
 //@     ac_word(old(self).line_bytes().subrange(0, old(self).ac_req_len())) matches Some(w) ==>
 //@         exists|req: Request<'_>, a: &mut Autocompletion<'_>| #[trigger] f.ensures((req, a), ())
-//@             && req.name() == w && a.state() == (AcState { auto: None, partial: false })
+//@             && req.name() == w && a.state() == (AcState { auto: None, partial: false }) && a.cands@ == Seq::<Seq<u8>>::empty()
 //@             && a.room() == old(self).cap() - old(self).ac_req_len()
 //@             && final(self).line_bytes() == ac_apply(old(self).line_bytes(), old(self).ac_req_len(), final(a).state(), old(self).cap() as int)
 //@             && (final(a).state().auto is None ==> final(self).cur() == old(self).cur())
@@ -329,6 +329,7 @@ impl<B: Buffer> Editor<B> {
     }
 
     /// Removes char at cursor position
+//@ #[verifier::rlimit(60)]
     pub fn remove(&mut self) {
 //@ requires old(self).wf(),
 //@ ensures final(self).wf(), final(self).cap() == old(self).cap(), final(self).cur() == old(self).cur(),
